@@ -554,7 +554,14 @@ class DataType(object):
                 type='decimal'
             )
 
-            if len(split_data_type) < 5:
+            if int(fractional) == 0:
+                # Values do not have a decimal dot
+                if len(split_data_type) < 5:
+                    etree.SubElement(element, 'param', name='minInclusive').text = str(0)
+                    etree.SubElement(element, 'param', name='pattern').text = r'([1-9][0-9]*)|0'
+                else:
+                    etree.SubElement(element, 'param', name='pattern').text = r'(-?[1-9][0-9]*)|0'
+            elif len(split_data_type) < 5:
                 etree.SubElement(element, 'param', name='minInclusive').text = str(0)
                 # Assure that integer part is not zero padded, fractional part
                 # is padded and no plus sign is present
